@@ -35,7 +35,9 @@ type c02StabResult struct {
 	Trans int      `json:"trans"`
 }
 
-var c02StabAlphabet = []string{"k-merge", "k-cleave", "k-splitsv", "k-rawmutate", "k-renumber", "s-merge", "k-kvedit", "k-annedit", "k-roiedit", "deepen", "mergenode", "newinstance", "delinstance"}
+var c02StabAlphabet = []string{"k-merge", "k-cleave", "k-splitsv", "k-rawmutate", "k-renumber", "s-merge", "k-kvedit", "k-annedit", "k-roiedit", "deepen", "mergenode", "newinstance", "delinstance",
+	// o-*: edits in an OLDER sibling branch of C (created before C, left open: its version id is smaller than C's)
+	"o-kvedit", "o-lmedit", "o-annedit", "o-roiedit"}
 
 func c02StabReads() map[string][]string {
 	return map[string][]string{
@@ -107,6 +109,7 @@ func c02StabWorker(args []string) int {
 		vsrv.PostS("node/"+root+"/roi/roi", "[[0,0,0,3],[1,0,0,0]]")
 		vsrv.Settle(root, "lm", "ann")
 		vsrv.Commit(root)
+		O, _ := vsrv.Branch(root, "older") // open sibling branch created before C
 		C, _ := vsrv.NewVersion(root)
 		if !j.QuietLM {
 			lmMerge(C, "lm", 1, 4)
@@ -192,7 +195,23 @@ func c02StabWorker(args []string) int {
 				vsrv.PostS(fmt.Sprintf("node/%s/later%d/key/k1", k, i), "zzz")
 			case "delinstance":
 				datastore.DeleteDataByName(dvid.UUID(root), "doomed", "")
+			case "o-kvedit":
+				vsrv.PostS("node/"+O+"/kv/key/k2", "older2")
+				vsrv.Delete("node/" + O + "/kv/key/k1")
+				vsrv.PostS("node/"+O+"/kv/key/k4", "older4") // a key that exists nowhere else
+				vsrv.PostS("node/"+O+"/kv/key/k3", "older3") // a key that C wrote itself
+			case "o-lmedit":
+				note(lmMerge(O, "lm", 1, 3), op)
+				v := newLMVol([3]int{16, 0, 0}, [3]int{16, 16, 16})
+				v.fill([3]int{16, 0, 0}, [3]int{32, 16, 16}, 100)
+				note(lmPostRaw(O, "lm", v, true), op)
+			case "o-annedit":
+				vsrv.Delete("node/" + O + "/ann/element/20_20_20")
+				vsrv.PostS("node/"+O+"/ann/elements", `[{"Pos":[71,11,11],"Kind":"Note","Tags":["t2"],"Prop":{},"Rels":[]}]`)
+			case "o-roiedit":
+				vsrv.PostS("node/"+O+"/roi/roi", "[[5,5,5,6]]")
 			}
+			vsrv.Settle(O, "lm", "ann")
 			if K != "" {
 				vsrv.Settle(K, "lm", "ann")
 			}
